@@ -757,7 +757,7 @@ class T:
                 except OverflowError:
                     raise Harness("generator: %s.%s does not fit %d words" % (specname, g, nv))
                 if sz > nv:
-                    data += bytes([lib.fill]) * ((sz - nv) * W)
+                    data += bytes([lib.fillbyte]) * ((sz - nv) * W)
                 ptr[g] = lib.mk(data)
                 if g not in gout:
                     orig[g] = data
